@@ -9,7 +9,7 @@ for d in seeded/*/; do
   n=$(basename $d); id=${n%%-*}
   [ -f $d/patch.diff ] || continue
   if ! git -C /repo diff --quiet; then echo "/repo dirty" >&2; exit 2; fi
-  git -C /repo apply $d/patch.diff || { echo "$n: patch does not apply"; continue; }
+  git -C /repo apply "$(pwd)/${d}patch.diff" || { echo "$n: patch does not apply"; continue; }
   out=$(./check $id quick --no-evidence 2>&1); rc=$?
   git -C /repo checkout -- .
   first=$(echo "$out" | grep -E 'violated' | head -1 | sed 's/^ *violated //' | cut -c1-160 | tr '|' '/' )
